@@ -13,3 +13,5 @@ var _ net.Conn
 //@   ensures c != nil && vcFresh(c)
 
 //@ ext (*crypto/tls.Conn).ConnectionState(c *tls.Conn) (s tls.ConnectionState)
+
+//@ ext (*crypto/tls.Conn).Handshake(c *tls.Conn) (err error)
